@@ -44,6 +44,17 @@ class Field(object):
         return 'Field(%s:%s)' % (self.name, self.kind)
 
 
+class CharField(Field):
+    """one symbolic character ranging over a set of code points; den = its code point (z3 Int or int)"""
+
+    def __init__(self, name, cs, den):
+        Field.__init__(self, name, A.cset(cs), 'char', den, fixed_len=1)
+        self.cs = cs
+
+    def with_cs(self, cs):
+        return CharField(self.name, cs, self.den)
+
+
 class Shape(Sym):
     def __init__(self, parts, cons=(), neg=()):
         ps = []
@@ -260,6 +271,17 @@ class SStrPlugin(object):
         raise OutOfSubset('in on %r' % (container,))
 
     def str_contains(self, it, container, x):
+        # `c in "literal"` for a one-character symbolic string
+        if isinstance(x, Shape) and len(x.parts) == 1 and isinstance(x.parts[0], CharField):
+            lang = A.cset(CS.of(*container)) if container else A.empty()
+            d, new = self.decide(it, x, lang, 'char_in_%s' % _short(container))
+            if new.cons or new.neg:
+                p = x.parts[0]
+                q = p.with_cs((p.cs & CS.of(*container)) if d else (p.cs - CS.of(*container)))
+                self.rebind(it, x, Shape([q]))
+            return d
+        if isinstance(x, Shape) and x.concrete() is not None:
+            return x.concrete() in container
         raise OutOfSubset('symbolic in str')
 
     # ---------------------------------------------------------------- methods
@@ -268,6 +290,10 @@ class SStrPlugin(object):
             raise obj.exc
         if isinstance(obj, Shape):
             return AbstractCallable('str.' + name, lambda it2, args, kw: self.method(it2, obj, name, args, kw))
+        if isinstance(obj, CharMatch):
+            if name == 'group':
+                return AbstractCallable('group', lambda it2, a, k: obj.shape)
+            raise OutOfSubset('match.%s' % name)
         if isinstance(obj, MatchObj):
             if name == 'groups':
                 return AbstractCallable('groups', lambda it2, a, k: tuple(obj._groups[1:]))
@@ -341,7 +367,25 @@ class SStrPlugin(object):
         return [Shape(ps) for ps in pieces]
 
     def replace(self, it, sh, args):
-        raise OutOfSubset('str.replace on symbolic string (use the per-character transducer)')
+        orig, esc = args[0], args[1]
+        if not (isinstance(orig, str) and len(orig) == 1 and isinstance(esc, str)):
+            raise OutOfSubset('str.replace with a non single-character pattern on a symbolic string')
+        out = []
+        has = A.concat(A.sigma_star(), A.lit(orig), A.sigma_star())
+        for p in sh.parts:
+            if isinstance(p, Lit):
+                out.append(Lit(p.text.replace(orig, esc)))
+            elif isinstance(p, CharField):
+                d, new = self.decide(it, Shape([p]), A.lit(orig), 'char_is_%r' % orig)
+                if d:
+                    out.append(Lit(esc))
+                else:
+                    out.append(p.with_cs(p.cs - CS.of(orig)) if (new.cons or new.neg) else p)
+            else:
+                if A.intersect_witness(p.nfa(), has) is not None:
+                    raise OutOfSubset('str.replace(%r) over field %s whose text may contain it' % (orig, p.name))
+                out.append(p)
+        return Shape(out, sh.cons, sh.neg)
 
     def getitem(self, it, obj, key):
         if isinstance(obj, Shape):
@@ -428,8 +472,39 @@ class SStrPlugin(object):
         if isinstance(owner, re.Pattern) and nm in ('match', 'fullmatch') and args and isinstance(args[0], (Shape, str)):
             return self.re_match(it, owner, to_shape(args[0]), nm)
         if isinstance(owner, re.Pattern) and nm == 'sub':
-            raise OutOfSubset('regex.sub on a symbolic string')
+            return self.re_sub(it, owner, args[0], to_shape(args[1]))
         return NotImpl
+
+    def re_sub(self, it, pat, repl, sh):
+        """pattern.sub(callback, s) for a single-character class pattern: a per-character map (ledger A-re-sub)"""
+        if not _single_char_pattern(pat):
+            raise OutOfSubset('regex.sub with a pattern that is not a single-character class')
+        cls_lang = S.body(pat.pattern, pat.flags)
+        out = []
+        for p in sh.parts:
+            if isinstance(p, Lit):
+                for ch in p.text:
+                    m = pat.match(ch)
+                    if m is None:
+                        out.append(Lit(ch))
+                    else:
+                        r = it.call(repl, [m]) if not isinstance(repl, str) else repl
+                        out += list(to_shape(r).parts)
+            elif isinstance(p, CharField):
+                inside, new = self.decide(it, Shape([p]), cls_lang, 'char_in_class')
+                q = p
+                if new.cons or new.neg:
+                    from ..lang.charset import CS as _CS
+                    clsset = _class_of(pat)
+                    q = p.with_cs((p.cs & clsset) if inside else (p.cs - clsset))
+                if inside:
+                    r = it.call(repl, [CharMatch(Shape([q]))]) if not isinstance(repl, str) else repl
+                    out += list(to_shape(r).parts)
+                else:
+                    out.append(q)
+            else:
+                raise OutOfSubset('regex.sub over a multi-character field (use the per-character transducer)')
+        return Shape(out)
 
     def re_match(self, it, pat, sh, how):
         lang = S.match_language(pat.pattern, pat.flags) if how == 'match' else S.body(pat.pattern, pat.flags)
@@ -534,6 +609,36 @@ class SStrPlugin(object):
         if f is not None:
             return f(it, sh)
         raise OutOfSubset('%s() of %r' % (name, sh))
+
+
+class CharMatch(object):
+    """match object of a single-character class pattern on a symbolic character"""
+
+    def __init__(self, shape):
+        self.shape = shape
+
+
+def _single_char_pattern(pat):
+    from ..lang.sre2nfa import sre_c, parse
+    t = list(parse(pat.pattern, pat.flags))
+    while len(t) == 1 and t[0][0] is sre_c.SUBPATTERN:
+        t = list(t[0][1][3])
+    return len(t) == 1 and t[0][0] in (sre_c.IN, sre_c.LITERAL, sre_c.NOT_LITERAL, sre_c.ANY)
+
+
+def _class_of(pat):
+    from ..lang.sre2nfa import sre_c, parse, _in_set
+    t = list(parse(pat.pattern, pat.flags))
+    while len(t) == 1 and t[0][0] is sre_c.SUBPATTERN:
+        t = list(t[0][1][3])
+    op, av = t[0]
+    if op is sre_c.IN:
+        return _in_set(av, pat.flags)
+    if op is sre_c.LITERAL:
+        return CS.rng(av, av)
+    if op is sre_c.NOT_LITERAL:
+        return ~CS.rng(av, av)
+    return ~CS.of('\n')
 
 
 class Poison(object):
